@@ -239,3 +239,118 @@ Section ReadRules.
     eapply lreach_step; eassumption.
   Qed.
 End ReadRules.
+
+(* ------------------------------------------------------------------ *)
+(** * The read invariant *)
+
+Section RInv.
+  Variables (inc out : list N).
+  Hypothesis inc_nonempty : inc <> [].
+  Hypothesis Hmulti : no_single_quorum inc out.
+  Notation rrule := (rrule inc out).
+  Notation rreachable := (rreachable inc out).
+
+  Record RInv (s : rst) : Prop := {
+    (* an acknowledgement echoes a recorded request *)
+    r_hack_req : forall q c t ctx, In (q, c, t, ctx) (pr_hacks s) -> existsb (req_is c t ctx) (pr_reqs s) = true;
+    (* contexts are unique per leader and term *)
+    r_uniq : forall r1 r2, In r1 (pr_reqs s) -> In r2 (pr_reqs s) ->
+        rq_c r1 = rq_c r2 -> rq_t r1 = rq_t r2 -> rq_ctx r1 = rq_ctx r2 -> r1 = r2;
+    (* the recorded index covers the commit points of terms up to the leader's *)
+    r_old : forall r T k, In r (pr_reqs s) -> In (T, k) (rq_snap r) -> T <= rq_t r -> (k <= rq_idx r)%nat;
+    (* a commit point of a later term that existed at request time is durable on a quorum
+       of nodes with a durable term beyond the request's, none of which acknowledges this
+       request or a later one of the same leader and term *)
+    r_new : forall r T k, In r (pr_reqs s) -> In (T, k) (rq_snap r) -> rq_t r < T ->
+        exists Q, quorum inc out Q = true /\
+          (forall z, In z Q -> T <= p_dterm (nodes (el (pr_lg s)) z)) /\
+          forall q r', In r' (req_from (rq_c r) (rq_t r) (rq_ctx r) (pr_reqs s)) ->
+            rq_c r' = rq_c r -> rq_t r' = rq_t r ->
+            In (q, rq_c r, rq_t r, rq_ctx r') (pr_hacks s) -> ~ In q Q;
+    (* answers *)
+    r_served : forall c t ctx idx, In (c, t, ctx, idx) (pr_served s) ->
+        exists snap, In (c, t, ctx, idx, snap) (pr_reqs s) /\
+          forall T k, In (T, k) snap -> T <= t /\ (k <= idx)%nat
+  }.
+
+  Lemma RInv_init : RInv rinit.
+  Proof. constructor; cbn; intros; contradiction. Qed.
+
+  Theorem RInv_step s l s' : rreachable s -> RInv s -> rrule l s = Some s' -> RInv s'.
+  Proof.
+    intros Hr HI H. pose proof (rreachable_lg inc out s Hr) as Hlr.
+    pose proof (reachable_Inv inc out _ (lreachable_el _ _ _ Hlr)) as HIe.
+    destruct HI as [R1 R2 R3 R4 R5].
+    destruct l as [ll|c ctx|q c t ctx|c ctx].
+    - (* a log rule: durable terms only grow *)
+      destruct (rlog_inv _ _ _ _ _ H) as (g & Hg & ->).
+      constructor; cbn [pr_lg pr_reqs pr_hacks pr_served]; try assumption.
+      intros r T k Hin Hs Ht. destruct (R4 r T k Hin Hs Ht) as (Q & HQ & HQd & HQa).
+      exists Q. split; [exact HQ|]. split; [|exact HQa].
+      intros z Hz. pose proof (HQd z Hz). pose proof (lstep_dterm_mono inc out (pr_lg s) ll g z Hlr Hg). lia.
+    - (* a read request *)
+      apply rreadreq_inv in H. cbv zeta in H. destruct H as (Hup & Hrl & Hc & Ht & Hnew & ->).
+      set (t := p_term (nodes (el (pr_lg s)) c)) in *.
+      set (idx := l_commit (ln (pr_lg s) c)) in *.
+      set (r0 := (c, t, ctx, idx, cpts (pr_lg s))).
+      assert (Hnoack : forall q, ~ In (q, c, t, ctx) (pr_hacks s)).
+      { intros q Hq. rewrite (R1 q c t ctx Hq) in Hnew. discriminate. }
+      constructor; cbn [pr_lg pr_reqs pr_hacks pr_served].
+      + intros q c0 t0 ctx0 Hin. rewrite existsb_app. rewrite (R1 _ _ _ _ Hin). reflexivity.
+      + intros r1 r2 H1 H2 Ec Et Ex. apply in_app_iff in H1, H2.
+        assert (Hfresh : forall r, In r (pr_reqs s) -> rq_c r = c -> rq_t r = t -> rq_ctx r = ctx -> False).
+        { intros r Hin E1 E2 E3. assert (existsb (req_is c t ctx) (pr_reqs s) = true); [|congruence].
+          apply existsb_req_In. exists r. auto. }
+        destruct H1 as [H1|[<-|[]]], H2 as [H2|[<-|[]]].
+        * apply R2; assumption.
+        * exfalso. apply (Hfresh r1 H1); assumption.
+        * exfalso. apply (Hfresh r2 H2); symmetry; assumption.
+        * reflexivity.
+      + intros r T k Hin Hs HT. apply in_app_iff in Hin. destruct Hin as [Hin|[<-|[]]]; [eapply R3; eassumption|].
+        cbn in Hs, HT |- *. apply (request_time_bound inc out inc_nonempty Hmulti (pr_lg s) c Hlr Hup Hrl Hc Ht T k Hs HT).
+      + intros r T k Hin Hs HT. apply in_app_iff in Hin. destruct Hin as [Hin|[<-|[]]].
+        * destruct (R4 r T k Hin Hs HT) as (Q & HQ & HQd & HQa). exists Q. split; [exact HQ|]. split; [exact HQd|].
+          intros q r' Hr' Ec Et Hh. rewrite req_from_app in Hr'
+            by (apply existsb_req_In; exists r; auto).
+          apply in_app_iff in Hr'. destruct Hr' as [Hr'|[<-|[]]]; [eapply HQa; eassumption|].
+          (* an acknowledgement with the fresh context would need the request to exist already *)
+          cbn in Ec, Et, Hh. exfalso. rewrite <- Ec, <- Et in Hh. eapply Hnoack; exact Hh.
+        * cbn in Hs, HT. destruct (cpt_durable_terms inc out inc_nonempty Hmulti (pr_lg s) T k Hlr Hs) as (Q & HQ & HQd).
+          exists Q. split; [exact HQ|]. split; [exact HQd|]. cbn [rq_c rq_t rq_ctx r0 fst snd].
+          intros q r' Hr' _ _ Hh. rewrite req_from_app_none in Hr' by exact Hnew.
+          apply req_from_incl in Hr'. destruct Hr' as [<-|[]]. cbn in Hh. exfalso. eapply Hnoack; exact Hh.
+      + intros c0 t0 ctx0 idx0 Hin. destruct (R5 _ _ _ _ Hin) as (snap & Hr0 & Hs). exists snap.
+        split; [apply in_or_app; left; exact Hr0|exact Hs].
+    - (* a heartbeat acknowledgement: its creator's durable term is at most t *)
+      apply rhback_inv in H. destruct H as (Hup & Hqt & Hqc & Hex & ->).
+      constructor; cbn [pr_lg pr_reqs pr_hacks pr_served]; try assumption.
+      + intros q0 c0 t0 ctx0 [Hin|Hin]; [inversion Hin; subst; exact Hex|eapply R1; exact Hin].
+      + intros r T k Hin Hs HT. destruct (R4 r T k Hin Hs HT) as (Q & HQ & HQd & HQa).
+        exists Q. split; [exact HQ|]. split; [exact HQd|].
+        intros q0 r' Hr' Ec Et [Hh|Hh]; [|eapply HQa; eassumption].
+        inversion Hh; subst q0. intros Hq. pose proof (HQd q Hq) as Hd.
+        pose proof (dterm_le_term inc out (el (pr_lg s)) q HIe). lia.
+    - (* an answer *)
+      apply rserve_inv in H. cbv zeta in H.
+      destruct H as (r & later & Ef & Hup & Hrl & (r' & Hr' & Ec' & Et' & Hq) & ->).
+      set (t := p_term (nodes (el (pr_lg s)) c)) in *.
+      pose proof (req_from_head _ _ _ _ _ _ Ef) as Hkey. apply req_is_spec in Hkey. destruct Hkey as (Ec & Et & Ex).
+      assert (Hin : In r (pr_reqs s)) by (apply (req_from_incl c t ctx); rewrite Ef; left; reflexivity).
+      constructor; cbn [pr_lg pr_reqs pr_hacks pr_served]; try assumption.
+      intros c0 t0 ctx0 idx0 [Hs|Hs]; [|apply R5; exact Hs]. inversion Hs; subst c0 t0 ctx0 idx0.
+      exists (rq_snap r). split; [rewrite <- Ec at 1; rewrite <- Et, <- Ex; rewrite <- req_eta; exact Hin|].
+      intros T k HTk. destruct (N.le_gt_cases T t) as [Hle|Hgt].
+      + split; [exact Hle|]. apply (R3 r T k Hin HTk). rewrite Et. exact Hle.
+      + exfalso. destruct (R4 r T k Hin HTk) as (Q & HQ & HQd & HQa); [rewrite Et; lia|].
+        destruct (has_quorum_intersect inc out Q _ HQ Hq) as [Hi _].
+        destruct (Hi inc_nonempty) as (v & _ & Hv1 & [<-|Hv2]).
+        * pose proof (HQd c Hv1). pose proof (dterm_le_term inc out (el (pr_lg s)) c HIe). fold t in H0. lia.
+        * apply ackers_In in Hv2. apply (HQa v r'); [rewrite Ec, Et, Ex, Ef; exact Hr'|congruence|congruence| |exact Hv1].
+          rewrite Ec, Et. exact Hv2.
+  Qed.
+
+  Theorem rreachable_RInv s : rreachable s -> RInv s.
+  Proof.
+    induction 1 as [|s l s' Hr IH Hstep]; [apply RInv_init|]. eapply RInv_step; eassumption.
+  Qed.
+End RInv.
